@@ -154,6 +154,45 @@ func (check typecheck) unaryExpr(n *node) error {
 	return check.op(unaryOpPredicates, n.action, n, c0, t0)
 }
 
+// logicalExpr type checks a conditional && or || expression.
+func (check typecheck) logicalExpr(n *node) error {
+	c0, c1 := n.child[0], n.child[1]
+
+	for _, c := range n.child {
+		if c.typ == nil {
+			return c.cfgErrorf("invalid operation: operand of %v has no value", n.action)
+		}
+		if err := check.op(binaryOpPredicates, n.action, n, c, c.typ.TypeOf()); err != nil {
+			return err
+		}
+	}
+
+	// Ensure that if values are untyped, both are converted to the same type
+	_ = check.convertUntyped(c0, c1.typ)
+	_ = check.convertUntyped(c1, c0.typ)
+
+	// The result of a comparison, an untyped boolean in Go, has type bool here: it combines with any boolean type.
+	if !c0.typ.equals(c1.typ) && !isComparison(c0) && !isComparison(c1) {
+		return n.cfgErrorf("invalid operation: mismatched types %s and %s", c0.typ.id(), c1.typ.id())
+	}
+	return nil
+}
+
+// isComparison returns true if n is a comparison, or a boolean operation on comparisons.
+func isComparison(n *node) bool {
+	switch n.kind {
+	case binaryExpr:
+		return isComparisonAction(n.action)
+	case landExpr, lorExpr:
+		return isComparison(n.child[0]) && isComparison(n.child[1])
+	case parenExpr:
+		return isComparison(n.child[0])
+	case unaryExpr:
+		return n.action == aNot && isComparison(n.child[0])
+	}
+	return false
+}
+
 // shift type checks a shift binary expression.
 func (check typecheck) shift(n *node) error {
 	c0, c1 := n.child[0], n.child[1]
